@@ -10,6 +10,13 @@
 //!
 //! case: {"files":[{"mod":["a","b"],"src":".."}, ..]}   (root: "mod":[], must be first;
 //!        a parent module always precedes its children)
+//!   or  {"disk":[{"path":"a/mod.roto","kind":"file"|"dir","src":".."}, ..], "base": dir|null}
+//!        a package DIRECTORY: the entries are created in that order inside a fresh
+//!        temporary directory (below `base` if given), the directory is read back with
+//!        `FileTree::read` (roto's own file discovery) and compiled.  The result then also
+//!        holds "listing": {relative directory: [names in the order `read_dir` yields them]},
+//!        an observation of the operating system taken before roto reads the directory.
+use std::path::Path;
 use std::sync::Mutex;
 
 use roto::{FileSpec, FileTree, Runtime, SourceFile, library};
@@ -57,6 +64,56 @@ fn to_spec(n: &Node, root: bool) -> FileSpec {
     }
 }
 
+/// names of every directory below `root` in the order the file system lists them
+fn listing(root: &Path, rel: &str, out: &mut serde_json::Map<String, Value>) {
+    let dir = if rel.is_empty() { root.to_path_buf() } else { root.join(rel) };
+    let mut names = Vec::new();
+    let mut subdirs = Vec::new();
+    for entry in std::fs::read_dir(&dir).expect("harness: read_dir") {
+        let entry = entry.expect("harness: read_dir entry");
+        let name = entry.file_name().to_string_lossy().to_string();
+        if entry.file_type().expect("harness: file_type").is_dir() {
+            subdirs.push(if rel.is_empty() { name.clone() } else { format!("{rel}/{name}") });
+        }
+        names.push(name);
+    }
+    out.insert(rel.to_string(), json!(names));
+    for s in subdirs {
+        listing(root, &s, out);
+    }
+}
+
+/// write the entries of a package directory in the given order
+fn write_disk(root: &Path, entries: &[Value]) {
+    for e in entries {
+        let p = root.join(e["path"].as_str().unwrap());
+        if e["kind"].as_str() == Some("dir") {
+            std::fs::create_dir_all(&p).expect("harness: create dir");
+        } else {
+            std::fs::create_dir_all(p.parent().unwrap()).expect("harness: create parent");
+            std::fs::write(&p, e["src"].as_str().unwrap()).expect("harness: write file");
+        }
+    }
+}
+
+fn mem_tree(files: &[Value]) -> FileTree {
+    let mut root: Option<Node> = None;
+    for f in files {
+        let path: Vec<String> =
+            f["mod"].as_array().unwrap().iter().map(|x| x.as_str().unwrap().to_string()).collect();
+        let src = f["src"].as_str().unwrap();
+        match &mut root {
+            None => {
+                assert!(path.is_empty(), "harness: first file must be the root");
+                root = Some(Node { path, src: src.to_string(), children: vec![] });
+            }
+            Some(r) => insert(r, &path, src),
+        }
+    }
+    let root = root.expect("harness: no files");
+    FileTree::file_spec(to_spec(&root, true))
+}
+
 fn main() {
     let args = parse_args();
     let lib = library! {
@@ -68,35 +125,40 @@ fn main() {
     let rt = Runtime::from_lib(lib).unwrap();
 
     run_batch(&args, |case: &Value, prog: &Progress| -> Value {
-        let files = case["files"].as_array().unwrap();
-        let mut root: Option<Node> = None;
-        for f in files {
-            let path: Vec<String> =
-                f["mod"].as_array().unwrap().iter().map(|x| x.as_str().unwrap().to_string()).collect();
-            let src = f["src"].as_str().unwrap();
-            match &mut root {
-                None => {
-                    assert!(path.is_empty(), "harness: first file must be the root");
-                    root = Some(Node { path, src: src.to_string(), children: vec![] });
-                }
-                Some(r) => insert(r, &path, src),
+        // the temporary directory lives until the end of the case
+        let mut tmp: Option<tempfile::TempDir> = None;
+        let mut listed = serde_json::Map::new();
+        let tree = if let Some(entries) = case["disk"].as_array() {
+            let mut b = tempfile::Builder::new();
+            b.prefix("c19_");
+            let dir = match case["base"].as_str() {
+                Some(base) => b.tempdir_in(base),
+                None => b.tempdir(),
             }
-        }
-        let root = root.expect("harness: no files");
-        let tree = FileTree::file_spec(to_spec(&root, true));
+            .expect("harness: tempdir");
+            write_disk(dir.path(), entries);
+            listing(dir.path(), "", &mut listed);
+            prog.step(0);
+            let t = FileTree::read(dir.path());
+            tmp = Some(dir);
+            t
+        } else {
+            Ok(mem_tree(case["files"].as_array().unwrap()))
+        };
 
         prog.step(0); // compile
         LOG.lock().unwrap().clear();
-        let mut pkg = match tree.compile(&rt) {
+        let mut pkg = match tree.and_then(|t| t.compile(&rt)) {
             Ok(p) => p,
             Err(e) => {
                 let kinds: Vec<&'static str> = roto::verif::report_kinds(&e);
                 let text = e.to_string();
                 let text: String = text.chars().take(600).collect();
-                return json!({"compile": "error", "kinds": kinds, "text": text,
+                return json!({"compile": "error", "kinds": kinds, "text": text, "listing": listed,
                               "compile_marks": LOG.lock().unwrap().clone()});
             }
         };
+        drop(tmp);
         let compile_marks = LOG.lock().unwrap().clone();
 
         prog.step(1); // discovery
@@ -114,6 +176,7 @@ fn main() {
 
         json!({
             "compile": "ok",
+            "listing": listed,
             "compile_marks": compile_marks,
             "names": names,
             "log": log,
